@@ -206,3 +206,36 @@ def rand_double(r, kind=None):
         m <<= 1
         e -= 1
     return (neg, m, e)
+
+
+def carry_ripple_case(r):
+    """(double token triple, scale): a value whose round-up at `scale` turns the rounding limb (base 10^9) into 10^9 and
+    ripples through a full limb of nines into a third limb, e.g. 1999999999.96 at scale 1 -> 20000000000.
+    digits: a | 999999999 | k nines | d >= 5 ...   with the k nines at the top of a base-10^9 limb"""
+    a = r.choice([1, 1, 2, 7, 12, 99, 120])
+    k = r.randint(1, 3)
+    d = r.randint(5, 9)
+    j = r.choice([-1, -1, -1, 0, -2, 1])              # rounding limb holds decimal places 9j+8 .. 9j
+    top = 9 * j + 8
+    digs = str(a) + "9" * 9 + "9" * k + str(d) + str(r.randint(0, 9))
+    # the first of the k nines sits at place `top`; the last digit of `digs` at place top - (k - 1) - 2
+    last_place = top - (k - 1) - 2
+    x = float(digs + "e%d" % last_place)
+    scale = -(top - (k - 1))
+    t = parse_dbl(dbl_token(x))
+    return (r.random() < 0.3, t[2], t[3]), scale
+
+
+def nines_case(r):
+    """integer part ending in 999999999 (or a longer run of nines) with a fraction that rounds up, at small scales"""
+    kind = r.randint(0, 3)
+    if kind == 0:
+        x = float("%d999999999.%s" % (r.randint(1, 9999), r.choice(["5", "6", "96", "996", "9996", "51", "4999", "95"])))
+    elif kind == 1:
+        x = float("%d.%s" % (10 ** r.randint(9, 15) - 1, r.choice(["5", "6", "96", "996"])))
+    elif kind == 2:
+        x = 999999999999999999.0 * r.choice([1, 1, 2, 10, 0.1])     # rounds to 1e18-ish as a double; limb boundaries above
+    else:
+        x = float("%d999999999999.%s" % (r.randint(1, 99), r.choice(["6", "96"])))
+    t = parse_dbl(dbl_token(x))
+    return (r.random() < 0.3, t[2], t[3]), r.choice([0, 0, 1, 1, 2, 3, 4, -1, -9, -3])
